@@ -3,7 +3,7 @@ import os
 import sys
 import z3
 sys.path.insert(0, os.path.dirname(os.path.dirname(os.path.abspath(__file__))))
-from props.common import main, Run, ALL_SIDECARS  # noqa: E402
+from props.common import main, Run, ALL_SIDECARS, companion_replayer, bounded_companion  # noqa: E402
 from props import faces  # noqa: E402
 from props.lemmas_hooks import SOURCE  # noqa: E402
 from pyvc.calls import Contract  # noqa: E402
@@ -92,9 +92,16 @@ def dispatch_ml(eng, c, f, entry, j, raised):
     faces.syn(eng, c, f, j, "no-raw-unpickle", not faces.events(f, "unpickle"), "no probe reaches the stock unpickler")
 
 
+HOOK_DIFF = ("replay/hook_diff.py: every operation sequence up to length 4 and 3000 seeded random ones up to length 9 over {arm, activate ML env "
+             "(without / with additions), remove, enter, leave, leave by exception, probe load, probe loads}, contexts nested up to depth 3: the four "
+             "bindings classified after every operation against the statement's state machine, identity of the restored pickle.load, flagged / "
+             "plain / addition probes")
+
+
 def build(run: Run):
     install_lemmas(run)
     eng = run.eng
+    run.replayers.append(companion_replayer(run, "C12", "hook_diff.py", how=HOOK_DIFF))
     run.verify(*HOOK_FNS)
     run.verify("lemmas_hooks.L1_arm_global", "lemmas_hooks.L1_arm_global_alias", "lemmas_hooks.L1_arm_context", extra_post=dispatch_checked)
     run.verify("lemmas_hooks.L1_arm_ml", extra_post=dispatch_ml)
@@ -118,6 +125,7 @@ def build(run: Run):
     run.syntactic("hook:import-time:_original_pickle_loads-is-pickle.loads-is-_pickle.loads", "lemma",
                   hk["orig_loads_is_pickle_loads"] and hk["pickle_loads_is__pickle_loads"], str(hk), where="hook",
                   meta={"clause": "at import, _original_pickle_loads is pickle.loads is _pickle.loads"})
+    bounded_companion(run, "C12", "hook_diff.py", what=HOOK_DIFF)
     run.informational.append("trace `enter context; activate ML env; leave context` ends with pickle.load restored to its value on entry while "
                              "pickle.loads/_pickle.load(s) stay ML: conforming under the reading 'the context owns pickle.load' (DESIGN C12)")
     run.informational.append("a manager constructed before an arming operation and entered after it restores the binding seen at construction; "
